@@ -81,3 +81,11 @@ int_impl!(u8, u16, u64, usize, i32, i64);
 pub fn random<T: VerifRandom>() -> T {
     T::verif_random()
 }
+
+pub fn verif_clear_forced() {
+    STATE.with(|s| {
+        let mut s = s.borrow_mut();
+        s.forced_u32.clear();
+        s.forced_bool.clear();
+    });
+}
